@@ -980,6 +980,26 @@ def adversarial_renames(src, text_by_backend, limit=3):
     return out
 
 
+def table_clauses(be, code, labs):
+    """Number of clause labels "<table>_<xtor>" per label, from the label names only; 0 (= not known) where the names are
+    ambiguous: some label with the prefix "<table>_" is itself the underscore-prefix of a further label (the table `T_1` of a
+    type T next to the table `T_1_1` of a user type that is called T_1 - the false alarm found by benign change B53).
+    spec/AsmWF.tla recognises tables by their shape and uses this number only where it is known."""
+    labset = set(labs)
+    owns = set()                                           # labels that are a proper underscore-prefix of another label
+    for l in labs:
+        parts = l.split("_")
+        for k_ in range(1, len(parts)):
+            cand = "_".join(parts[:k_])
+            if cand in labset:
+                owns.add(cand)
+    count = {}
+    for t in labs:
+        cands = [l for l in labs if l.startswith(t + "_")]
+        count[t] = 0 if any(l in owns for l in cands) else len(cands)
+    return count
+
+
 def check_C14(tier):
     stages.EFFECTS_LIMIT = T(tier, 6, None)
     import native, refine, time, collections
@@ -1046,7 +1066,7 @@ def check_C14(tier):
                     continue
                 c = refine.load_code(a_, n, be)
                 labs = list(c["labels"])
-                clauses = {t: sum(1 for l in labs if l.startswith(t + "_") and l != t) for t in labs}
+                clauses = table_clauses(be, c["code"], labs)
                 files.append({"name": "%s:%s" % (n, be), "backend": be, "code": c["code"], "labels": c["labels"], "dups": c["dups"],
                               "clauses": clauses, "jump_length": cfgs[be]["jump_length"]})
                 texts["%s:%s" % (n, be)] = c["text"]
